@@ -1271,7 +1271,8 @@ func runC16(args []string) int {
 	return 0
 }
 
-// corpus: a rule expression per file (first line), optional "never:m0,m1" second line
+// corpus: a rule expression per file (first line), optional "never:m0,m1" second line, optional "alerting:<name>" /
+// "recording:<name>" lines adding rules of that kind and name to the checked set
 func c16CorpusCase(r *rand.Rand, id int, t0 int64, text string) *c16Case {
 	lines := strings.Split(strings.TrimSpace(text), "\n")
 	c := c16GenCase(r, id, t0)
@@ -1280,6 +1281,18 @@ func c16CorpusCase(r *rand.Rand, id int, t0 int64, text string) *c16Case {
 	c.AllChecked, c.NoneChecked = false, false
 	c.DisabledNames, c.SnoozedNames, c.Recording, c.Alerting = nil, nil, nil, nil
 	c.Content = fmt.Sprintf("groups:\n- name: g\n  rules:\n  - alert: test\n    expr: '%s'\n", c.Expr)
+	for _, ln := range lines[1:] {
+		switch {
+		case strings.HasPrefix(ln, "alerting:"):
+			n := strings.TrimSpace(strings.TrimPrefix(ln, "alerting:"))
+			c.Alerting = append(c.Alerting, n)
+			c.Content += fmt.Sprintf("  - alert: %s\n    expr: up == 0\n", n)
+		case strings.HasPrefix(ln, "recording:"):
+			n := strings.TrimSpace(strings.TrimPrefix(ln, "recording:"))
+			c.Recording = append(c.Recording, n)
+			c.Content += fmt.Sprintf("  - record: %s\n    expr: sum(up) by (job)\n", n)
+		}
+	}
 	if len(lines) > 1 && strings.HasPrefix(lines[1], "never:") {
 		drop := strings.Split(strings.TrimPrefix(lines[1], "never:"), ",")
 		var keepS []c16Series
